@@ -1,5 +1,6 @@
 import Restli.Proofs.Equals
 import Restli.Proofs.GenEquals
+import Restli.Proofs.GenEqualsFuel
 /-! # C10 — Equals / hash contract, library level
 
 Scope of this file: the hand-written library the generated code calls — `fnv1a/hasher.go`
@@ -350,6 +351,19 @@ theorem c10_generated_equals_trans (env : Env) (f : Nat) (ty : Ty) (a b c : Valu
     valueEq env f ty a c = true :=
   eqTrans env f ty a b c ha hb hc h₁ h₂
 
+/-- the depth budget of the model is not part of the verdict: a pair the generated `Equals` accepts
+at some budget is accepted at every larger one (the Go code has no budget at all) -/
+theorem c10_generated_equals_fuel_irrelevant (env : Env) (f g : Nat) (hfg : f ≤ g) (ty : Ty) (a b : Value)
+    (ha : MapsOK a) (hb : MapsOK b) (h : valueEq env f ty a b = true) :
+    valueEq env g ty a b = true :=
+  valueEq_fuel_mono env f g hfg ty a b ha hb h
+
+/-- hence Equals ⇒ same hash also when the two are evaluated at different budgets -/
+theorem c10_generated_equal_implies_same_hash_any_fuel (env : Env) (P : Params) (f g : Nat) (hfg : f ≤ g)
+    (ty : Ty) (a b : Value) (ha : MapsOK a) (hb : MapsOK b) (h : valueEq env f ty a b = true) (h0 : Hash) :
+    hashInto env P g ty h0 a = hashInto env P g ty h0 b :=
+  hashCong env P g ty a b ha hb (valueEq_fuel_mono env f g hfg ty a b ha hb h) h0
+
 /-- a schema with an include, a union, an enum and a map of arrays of doubles -/
 def exEnvG : Env :=
   [("E", .enum [[65], [66]]),
@@ -370,6 +384,10 @@ example : MapsOK exA ∧ MapsOK exB := by
   simp [exA, exB, MapsOK, MapsOKKvs, MapsOKList, KeysNodup]
 example : computeHash exEnvG paramsV2 4 "R" exA = computeHash exEnvG paramsV2 4 "R" exB :=
   c10_generated_equal_implies_same_ComputeHash exEnvG paramsV2 4 "R" exA exB
+    (by simp [exA, MapsOK, MapsOKKvs, MapsOKList, KeysNodup])
+    (by simp [exB, MapsOK, MapsOKKvs, MapsOKList, KeysNodup]) (by decide)
+example : valueEq exEnvG 9 (.ref "R") exA exB = true :=
+  c10_generated_equals_fuel_irrelevant exEnvG 5 9 (by decide) _ exA exB
     (by simp [exA, MapsOK, MapsOKKvs, MapsOKList, KeysNodup])
     (by simp [exB, MapsOK, MapsOKKvs, MapsOKList, KeysNodup]) (by decide)
 /-- and a differing nested element is seen -/
